@@ -56,6 +56,10 @@ def run(cmd, cwd=None, timeout=3600, env=None):
     return p.returncode, p.stdout
 
 
+class MachineryError(Exception):
+    pass
+
+
 class Lock:
     def __enter__(self):
         os.makedirs(CACHE, exist_ok=True)
@@ -136,6 +140,13 @@ def build_and_audit(pid, tier):
             info['failures'].append({'what': 'model build (lake build RimuModel rimumodel)', 'detail': tail_errors(out)})
         target = 'RimuProofs.Props.%s' % pid
         rc, out = run(['lake', 'build', target], cwd=LEAN)
+        if rc != 0 and re.search(r'out of memory|Killed|exited with code 137|exited with code -9|std::bad_alloc', out):
+            # the machine, not a proof, failed: once more (the modules that did build are kept), then give up as a
+            # machinery error - never as a violation
+            rc, out = run(['lake', 'build', target], cwd=LEAN)
+            if rc != 0 and re.search(r'out of memory|Killed|exited with code 137|exited with code -9|std::bad_alloc', out):
+                log('the Lean build ran out of memory twice')
+                raise MachineryError('lake build out of memory')
         if rc == 0:
             info['proof_build'] = 'ok'
         else:
@@ -332,4 +343,7 @@ if __name__ == '__main__':
         sys.exit(main())
     except subprocess.TimeoutExpired:
         log('timeout in the machinery')
+        sys.exit(2)
+    except MachineryError as e:
+        log('machinery error: %s' % e)
         sys.exit(2)
